@@ -49,7 +49,8 @@ class DBusProperty:
 
         if self.interface is None:
             # Force object to set it
-            instance._getProperty('', self.pname)
+            for _ in instance._iterIFaceCaches():
+                pass
 
         if self.key is None:
             self.key = self.interface + self.pname
@@ -63,7 +64,8 @@ class DBusProperty:
 
         if self.iprop is None:
             # Force object to set it
-            instance._getProperty('', self.pname)
+            for _ in instance._iterIFaceCaches():
+                pass
 
         if self.key is None:
             self.key = self.interface + self.pname
